@@ -258,9 +258,9 @@ func (ma *mergeAnalysis) ruleR14n(c *Ctx) {
 	m := c.M
 	c.rule("R14n", "initialised before written through: every pointer- or map-typed member of the request view and of the reply accumulator that a merge function writes through (request.Container.Linux.Resources.Memory.Limit needs Linux, Resources and Memory; Unified[k] needs the map) is set to a non-nil value by the result constructor (or by the accumulator literal of getContainerUpdate) — otherwise the first plugin touching it crashes the runtime with a nil dereference or a write to a nil map", 10)
 	// initialised paths
-	initView := map[string]bool{}   // relative to request.create / request.update
-	initReply := map[string]bool{}  // relative to reply
-	initAcc := map[string]bool{}    // accumulator literal in getContainerUpdate, relative to the ContainerUpdate
+	initView := map[string]bool{}  // relative to request.create / request.update
+	initReply := map[string]bool{} // relative to reply
+	initAcc := map[string]bool{}   // accumulator literal in getContainerUpdate, relative to the ContainerUpdate
 	for _, name := range []string{"collectCreateContainerResult", "collectUpdateContainerResult"} {
 		f := m.fn(pkgAdapt, name)
 		for _, b := range f.Blocks {
